@@ -78,7 +78,7 @@ func fnClientSetName(ctx *cmdContext, args map[string]any) (output respValue, er
 		}
 	}
 
-	ctx.cs.name = name
+	ctx.cs.setName(name)
 	output.data = rstrOK
 	return
 }
